@@ -336,6 +336,8 @@ impl ParamSpec {
         ParamSpec {
             params: ANY_PARAMS
                 .get_or_init(|| {
+                    #[cfg(feature = "verif_hooks")]
+                    let _no_preempt = crate::verif_hooks::NoPreempt::enter();
                     SmallArcVec1::clone_from_slice(&[
                         Param::args(Ty::any()),
                         Param::kwargs(Ty::any()),
